@@ -66,8 +66,9 @@ type vfC15Run struct {
 	reqs    []int
 	reqf    []string
 	resps   int
-	ndelay  []time.Duration
-	cpause  []time.Duration
+	ndelay  []time.Duration // node: delay of the k-th answer
+	cpause  []time.Duration // consumer: pause before asking for the next row
+	lpause  []time.Duration // consumer: pause between being handed a row and logging it
 	ended   int32
 	pending sync.WaitGroup
 }
@@ -265,13 +266,14 @@ func (w *vfC15Worker) close() {
 	}
 }
 
-func vfC15Sched(c *vfC15Case, seed int64) (nd, cp []time.Duration) {
+func vfC15Sched(c *vfC15Case, seed int64) (nd, cp, lp []time.Duration) {
 	if c.Sched == 0 {
-		return nil, nil
+		return nil, nil, nil
 	}
 	rng := rand.New(rand.NewSource(seed*1000003 + int64(c.Run)*7919 + int64(c.Sched)))
 	nd = make([]time.Duration, 8)
 	cp = make([]time.Duration, 16)
+	lp = make([]time.Duration, 16)
 	switch c.Sched % 4 {
 	case 1: // slow node, eager consumer: the consumer reaches the page end while the prefetch is in flight
 		for i := range nd {
@@ -281,8 +283,10 @@ func vfC15Sched(c *vfC15Case, seed int64) (nd, cp []time.Duration) {
 		for i := range nd {
 			nd[i] = time.Microsecond
 		}
-		for i := range cp {
-			cp[i] = 300 * time.Microsecond
+		// the pause sits between Scan returning and the row being logged: a request the prefetch goroutine sends
+		// meanwhile is logged before that row, which pins down the position at which the prefetch was triggered
+		for i := range lp {
+			lp[i] = 300 * time.Microsecond
 		}
 	default:
 		ch := []time.Duration{0, time.Microsecond, 40 * time.Microsecond, 200 * time.Microsecond, 900 * time.Microsecond}
@@ -291,6 +295,7 @@ func vfC15Sched(c *vfC15Case, seed int64) (nd, cp []time.Duration) {
 		}
 		for i := range cp {
 			cp[i] = ch[rng.Intn(len(ch))]
+			lp[i] = ch[rng.Intn(len(ch))]
 		}
 	}
 	return
@@ -298,7 +303,7 @@ func vfC15Sched(c *vfC15Case, seed int64) (nd, cp []time.Duration) {
 
 func (w *vfC15Worker) runCase(c vfC15Case, seed int64) (vfC15Result, []map[string]interface{}) {
 	r := &vfC15Run{c: c, tr: vfNewTracer()}
-	r.ndelay, r.cpause = vfC15Sched(&c, seed)
+	r.ndelay, r.cpause, r.lpause = vfC15Sched(&c, seed)
 	res := vfC15Result{Run: c.Run, ID: c.ID, Reqs: []int{}, ReqF: []string{}, Rows: [][2]int{}}
 	w.cur.Store(r)
 	s := w.sess[c.Skip&1]
@@ -320,6 +325,9 @@ func (w *vfC15Worker) runCase(c vfC15Case, seed int64) (vfC15Result, []map[strin
 
 	rows := [][2]int{}
 	row := func(p, i int, sv string) {
+		if n := len(rows); n < len(r.lpause) && r.lpause[n] > time.Microsecond && c.Kind != "SliceMap" {
+			time.Sleep(r.lpause[n])
+		}
 		if sv != fmt.Sprintf("r%d.%d", p, i) {
 			p = -1000 - p // a row whose columns do not belong together
 		}
